@@ -11,6 +11,6 @@ th = extract.tree_hash()
 pdb = facts.DB(extract.extract('parser', th), 'parser')
 sig = c19.parser_signatures(pdb)
 json.dump({'_doc': 'per parser function: what each struct field it builds, and its return value, is computed from (source fields, '
-                   'operations, constants by value, constant indices), as confirmed on the pinned tree', 'functions': sig},
+                   'operations, constants by value, constant indices), as confirmed on the pinned tree', 'functions': sig, 'e2e': c19.parser_e2e(pdb)},
           open(V + '/tables/c19_parser_signatures.json', 'w'), indent=1, sort_keys=True)
 print(len(sig), 'functions', sum(len(v) for v in sig.values()), 'entries')
